@@ -221,9 +221,19 @@ func (s *IAMServiceInternal) initIAM() error {
 
 	_, err := os.ReadFile(fname)
 	if errors.Is(err, fs.ErrNotExist) {
-		b, err := json.Marshal(iAMConfig{AccessAccounts: map[string]Account{}})
+		// an update removes the iam file before it renames the new one
+		// into place: a gateway that died in between has left the backup
+		// of the last complete state. Starting with an empty store would
+		// drop every account.
+		b, err := os.ReadFile(filepath.Join(s.dir, iamBackupFile))
+		if err == nil {
+			_, err = parseIAM(b)
+		}
 		if err != nil {
-			return fmt.Errorf("marshal default iam: %w", err)
+			b, err = json.Marshal(iAMConfig{AccessAccounts: map[string]Account{}})
+			if err != nil {
+				return fmt.Errorf("marshal default iam: %w", err)
+			}
 		}
 		err = os.WriteFile(fname, b, iamMode)
 		if err != nil {
@@ -334,6 +344,12 @@ func (s *IAMServiceInternal) storeIAM(update UpdateAcctFunc) error {
 		// reset retries on successful read
 		retries = 0
 
+		// make a backup copy in case we crash before update. This is
+		// done before the remove: from the remove to the rename the
+		// backup is the only copy of the accounts, and it has to be the
+		// state that was read, not the one of an earlier update
+		os.WriteFile(filepath.Join(s.dir, iamBackupFile), b, iamMode)
+
 		err = os.Remove(fname)
 		if errors.Is(err, fs.ErrNotExist) {
 			// racing with someone else updating
@@ -349,13 +365,6 @@ func (s *IAMServiceInternal) storeIAM(update UpdateAcctFunc) error {
 		// save copy of data
 		datacopy := make([]byte, len(b))
 		copy(datacopy, b)
-
-		// make a backup copy in case we crash before update
-		// this is after remove, so there is a small window something
-		// can go wrong, but the remove should barrier other gateways
-		// from trying to write backup at the same time. Only one
-		// gateway will successfully remove the file.
-		os.WriteFile(filepath.Join(s.dir, iamBackupFile), b, iamMode)
 
 		verifhook.Point("iam.afterBackup")
 		b, err = update(b)
